@@ -19,7 +19,7 @@ pub static EXPECTED: Scenario = Scenario {
     run,
     quick_runs: 6000,
     thorough_runs: 200_000,
-    rule: "one run = a caller Network and an address book of 5 addresses hosting the expected peer E, another honest identity O, an impostor replaying E's certificate with a foreign key (acknowledgement implemented), a party with its own key presenting E's certificate behind its own in the chain, and nobody; 2-7 concurrent connect / connect_with_peer_id calls at PRNG instants under PRNG handshake loss, duplication and corruption; distinct = distinct order signature (per call: target kind, expectation, result; events on caller, E and O); non-trivial = every run with a mismatching dial or a fault",
+    rule: "one run = a caller Network and an address book of 6 addresses hosting the expected peer E, another honest identity O, an impostor replaying E's certificate with a foreign key (acknowledgement implemented), a party with its own key presenting E's certificate behind its own in the chain, the caller's own address, and nobody; 2-7 concurrent connect / connect_with_peer_id calls at PRNG instants under PRNG handshake loss, duplication and corruption; distinct = distinct order signature (per call: target kind, expectation, result; events on caller, E and O); non-trivial = every run with a mismatching dial or a fault",
     real: super::REAL_NET,
     stubbed: super::STUB_NET,
 };
@@ -31,6 +31,8 @@ enum Target {
     Impostor,
     /// holds its own key M and presents the chain [cert(M), cert(E)]
     Chain,
+    /// the caller's own address: the party reached is the caller itself
+    Own,
     Nobody,
 }
 
@@ -112,13 +114,14 @@ fn run(input: RunInput) -> ScenFuture {
                 Target::O => o.addr,
                 Target::Impostor => imp.addr,
                 Target::Chain => chain_ep.addr,
+                Target::Own => c.addr,
                 Target::Nobody => addr(77),
             }
         };
         let mut r = w.rng("wl:calls");
         let mut plan = Vec::new();
         for _ in 0..n_calls {
-            let t = [Target::E, Target::O, Target::Impostor, Target::Nobody, Target::Chain][r.gen_range(0..5)];
+            let t = [Target::E, Target::O, Target::Impostor, Target::Nobody, Target::Chain, Target::Own][r.gen_range(0..6)];
             // expectation: Some(E) / Some(O) / None (plain connect) / sometimes Some(M)
             let expect: Option<PeerId> = match r.gen_range(0..3) {
                 0 => None,
@@ -126,6 +129,7 @@ fn run(input: RunInput) -> ScenFuture {
                 _ => Some(o.peer_id),
             };
             let expect = if t == Target::Chain && r.gen_bool(0.4) { Some(m_id) } else { expect };
+            let expect = if t == Target::Own && r.gen_bool(0.4) { Some(c.peer_id) } else { expect };
             // keep O unconnected from C in runs that use it as a mismatch-only target
             let expect = if t == Target::O && !o_plain_ok { Some(e_id) } else { expect };
             plan.push((t, expect, if spread_us == 0 { 0 } else { r.gen_range(0..=spread_us) }));
@@ -158,6 +162,7 @@ fn run(input: RunInput) -> ScenFuture {
                 Target::E => e_online.then_some(e_id),
                 Target::O => Some(o.peer_id),
                 Target::Chain => Some(m_id),
+                Target::Own => Some(c.peer_id),
                 _ => None,
             }
         };
@@ -180,7 +185,7 @@ fn run(input: RunInput) -> ScenFuture {
                         // fault-free: a dial to the right party with a matching (or no) expectation succeeds
                         // (whether a chain of several certificates is acceptable at all is not this
                         // property's business: no success is demanded there)
-                        let should = t != Target::Chain && holder(t).map(|h| expect.map(|x| x == h).unwrap_or(true)).unwrap_or(false);
+                        let should = t != Target::Chain && t != Target::Own && holder(t).map(|h| expect.map(|x| x == h).unwrap_or(true)).unwrap_or(false);
                         w.check(!should, "matching-dial-failed-without-loss", key.clone(), || format!("call {i} failed: {e}"));
                     }
                 }
@@ -208,7 +213,7 @@ fn run(input: RunInput) -> ScenFuture {
         }
         if *imp_accepted.lock().unwrap() > 0 { w.probe("impostor-saw-completed-tls(plain-connect)"); }
         for p in c.net.peers() {
-            w.check(Some(p) == e_online.then_some(e_id) || p == o.peer_id || p == m_id, "listed-identity-nobody-holds", w.pname(&p), || "caller lists an identity that no reachable endpoint holds".into());
+            w.check(Some(p) == e_online.then_some(e_id) || p == o.peer_id || p == m_id || p == c.peer_id, "listed-identity-nobody-holds", w.pname(&p), || "caller lists an identity that no reachable endpoint holds".into());
         }
         w.sample("calls", json!({"e_online": e_online, "lossy": lossy, "calls": results.iter().map(|(i, r, _)| json!({"target": format!("{:?}", plan[*i].0), "expect": plan[*i].1.map(|p| w.pname(&p)), "result": r.as_ref().map(|p| w.pname(p)).map_err(|e| e.chars().take(60).collect::<String>())})).collect::<Vec<_>>()}));
         let out = w.finish();
